@@ -116,3 +116,45 @@ contract('c:g_object_info_get_field_offset', cfile=CF, params={'info': 'GIRealIn
                                                "__elemref(info.typelib.data, ACC).has_embedded_type != 0 else 0)"},
                               }, 'index': 'i'}},
          ensures={'C09.field_offset.walks_fields_and_embedded_callbacks': "result == FOLD('FOFF', n)"})
+
+
+# ---- attribute lookup: binary search then walk back to the first blob of the node (gibaseinfo.c) -----------------
+class AttributeBlob(Buffer): pass
+
+
+UNIVERSE.register(AttributeBlob)
+_schema(AttributeBlob, offset='int', name='int', value='int')
+_schema(Header, attributes='int', n_attributes='int', attribute_blob_size='int')
+CFB = 'girepository/gibaseinfo.c'
+from givc.cruntime import __ptradd, __ptrint   # noqa
+
+
+def table_first(info):
+    return __elemref(info.typelib.data, info.typelib.data.attributes)
+
+
+def in_table(info, p):
+    f = __ptrint(table_first(info))
+    return f <= __ptrint(p) and __ptrint(p) < f + info.typelib.data.n_attributes
+
+
+contract('c:bsearch', params={'key': 'AttributeBlob', 'base': 'AttributeBlob', 'nmemb': 'int', 'size': 'int', 'compar': 'any'},
+         returns='AttributeBlob?', trusted=True,
+         ensures={'hit': 'implies(result is not None, __ptrint(base) <= __ptrint(result) and '
+                         '__ptrint(result) < __ptrint(base) + nmemb and result.offset == key.offset)',
+                  'miss': 'implies(result is None, forall_range(0, nmemb, lambda k: __ptradd(base, k).offset != key.offset))'},
+         note='bsearch over the offset-sorted table with cmp_attribute: some element with an equal key, or NULL if none')
+
+contract('c:_attribute_blob_find_first', cfile=CFB,
+         params={'info': 'GIRealInfo', 'blob_offset': 'int'}, returns='AttributeBlob?', props=('C09',),
+         requires=['isinstance(info.typelib.data, Header)', 'info.typelib.data.n_attributes >= 0'],
+         loops={1: {'invariant': ['res is not None and in_table(info, res) and res.offset == blob_offset',
+                                  '__ptrint(previous) == __ptrint(res) - 1', 'first is table_first(info)'],
+                    'modifies': [], 'var_types': {'res': 'AttributeBlob?', 'previous': 'AttributeBlob'}}},
+         ensures={
+             'C09.attributes.found_blob_belongs_to_the_node': 'implies(result is not None, in_table(info, result) and result.offset == blob_offset)',
+             'C09.attributes.first_blob_of_the_node': 'implies(result is not None, __ptrint(result) == __ptrint(table_first(info)) or '
+                                                      '__ptradd(result, -1).offset != blob_offset)',
+             'C09.attributes.none_only_if_node_has_none': 'implies(result is None, forall_range(0, info.typelib.data.n_attributes, '
+                                                          'lambda k: __ptradd(table_first(info), k).offset != blob_offset))',
+         })
